@@ -2,7 +2,7 @@
 import numpy as np
 import gen
 import spec
-from props.common import load_impl, make_prov, exc_name, rand_keys
+from props.common import load_impl, make_prov, exc_name, rand_keys, rand_ckeys
 
 RULE = ("random ragged DNF lists (rows 1-6, disjuncts 1-3, conjuncts 1-3, 2-3 candidates, value-0 literals, repeated units) "
         "x ALL assignments x encodings (ndarray, list, dict with omitted units) x dtypes (bool, int); compared with the Lean model "
@@ -12,8 +12,10 @@ RULE = ("random ragged DNF lists (rows 1-6, disjuncts 1-3, conjuncts 1-3, 2-3 ca
 
 def one_case(ctx, I, n_units, n_cands, exprs):
     keys, scheme = rand_keys(ctx.rng, n_units)
-    prov, units, es = make_prov(I, exprs, n_units, n_cands, keys=keys, lazy=(ctx.rng.random() < 0.3))
+    ckeys, cscheme = rand_ckeys(ctx.rng, n_cands)
+    prov, units, es = make_prov(I, exprs, n_units, n_cands, keys=keys, lazy=(ctx.rng.random() < 0.3), ckeys=ckeys)
     ctx.dist["unit_keys=" + scheme] += 1
+    ctx.dist["candidate_keys=" + cscheme] += 1
     asg = spec.assignments(n_units, n_cands)
     # implementation
     impl_tab = []
@@ -24,7 +26,7 @@ def one_case(ctx, I, n_units, n_cands, exprs):
             m_list = [bool(x) for x in np.asarray(prov.query(list(a))).tolist()]
             idx = np.asarray(prov.query(np.array(a, dtype=int), dtype=int)).reshape(-1).tolist()
             # dict encoding: drop the units that hold the first candidate with probability 1/2
-            d = {keys[u]: a[u] for u in range(n_units) if not (a[u] == 0 and (u + sum(a)) % 2 == 0)}
+            d = {keys[u]: ckeys[a[u]] for u in range(n_units) if not (a[u] == 0 and (u + sum(a)) % 2 == 0)}
             m_dict = [bool(x) for x in np.asarray(prov.query(d)).tolist()]
         except Exception as e:  # noqa
             bad = (a, exc_name(e), repr(e))
